@@ -22,6 +22,9 @@ pub mod superminhasher2;
 pub mod invhash;
 pub mod nohasher;
 
+#[cfg(feature = "verif-hooks")]
+pub mod verif_hooks;
+
 // hashing stuff
 
 lazy_static! {
